@@ -15,6 +15,7 @@ structure StatE where
   linkname : Path
   devmajor : Int
   devminor : Int
+  xattrs : List (Path × Path) := []   -- sorted by key; not part of the identity
 deriving DecidableEq, Repr
 
 def modeDir : Nat := 2147483648      -- os.ModeDir = 1<<31
